@@ -68,6 +68,17 @@ impl Area for MacroArea {
             // a faithful shorthand evaluates each of its arguments exactly once (every argument of a generated call site counts its own evaluation)
             if let Some(n) = site.rsplit('/').next().and_then(|x| x.parse::<usize>().ok()) { if r.is_ok() && a.ticks.get() != n && a.ticks.get() != 0 {
                 fails.push(Failure { class: "argument-evaluated-not-once".into(), detail: format!("{}: {} argument expressions were evaluated {} times in total", line, n, a.ticks.get()) }); } }
+            // ---- "when the registration is refused it evaluates to Err": the same call site run again makes an EQUAL metric (same name and constant labels,
+            // in a freshly built map) while the first one is still registered; that registration must be refused with AlreadyReg
+            if let Ok(Ok(m)) = &r { if !matches!(m, Made::O(_) | Made::HO(_) | Made::L(_)) {
+                let r2 = std::panic::catch_unwind(std::panic::AssertUnwindSafe(|| call_site(site, comma, &a)));
+                match r2 {
+                    Ok(Err(Error::AlreadyReg)) => { stats.hit("second-equal-registration:refused"); }
+                    Ok(Ok(m2)) => { fails.push(Failure { class: "refused-registration-not-err".into(), detail: format!("{}: the same call made again, with the first metric still registered, evaluated to Ok (an equal metric was registered twice)", line) });
+                        if !site.contains("_with_registry") { let c: Box<dyn Collector> = clone_box(&(Box::new(Counter::new("unused", "h").unwrap()) as Box<dyn Collector>), &m2); let _ = prometheus::default_registry().unregister(c); } }
+                    Ok(Err(e)) => fails.push(Failure { class: "refused-registration-not-err".into(), detail: format!("{}: the same call made again evaluated to {} instead of AlreadyReg", line, err_kind(&e)) }),
+                    Err(_) => fails.push(Failure { class: "refused-registration-not-err".into(), detail: format!("{}: the same call made again panicked instead of evaluating to Err", line) }),
+                } } }
             // ---- the explicit call the form stands for (oracle)
             let consts: HashMap<String, String> = if takes_opts { a.merged() } else if takes_hopts { a.c1_owned() } else { HashMap::new() };
             let exp_opts = Opts::new(a.name.clone(), a.help.clone()).const_labels(consts.clone());
